@@ -162,7 +162,9 @@ eval(struct expr *expr)
 		l = eval(expr->base);
 		if (l->kind == EXPRCONST) {
 			expr->kind = EXPRCONST;
-			if (l->type->prop & PROPINT && t->prop & PROPFLOAT) {
+			if (t->kind == TYPEBOOL) {
+				expr->u.constant.u = istrue(l);
+			} else if (l->type->prop & PROPINT && t->prop & PROPFLOAT) {
 				if (l->type->u.basic.issigned)
 					expr->u.constant.f = l->u.constant.i;
 				else
